@@ -166,3 +166,22 @@ func hostileCorpus() []string {
 	add(strings.Repeat("';touch canary;'", 500))
 	return out
 }
+
+// qlWord enumerates the strings over {quote, letter} in (length, binary) order: n = 0 is the
+// empty string, then the 2 strings of length 1, the 4 of length 2, ...
+func qlWord(n int) string {
+	l := 0
+	for n >= 1<<l {
+		n -= 1 << l
+		l++
+	}
+	b := make([]byte, l)
+	for i := range b {
+		if n>>i&1 == 1 {
+			b[i] = '\''
+		} else {
+			b[i] = 'a'
+		}
+	}
+	return string(b)
+}
